@@ -3,30 +3,9 @@
    <model's serialisation, UTF-8 | P;;>\t<1|0: the model's parser accepts the real view and re-serialises it to the
    same code points>\t<model confidence bits of the bit flips, joined by ,>\t<1|0: wf_ok st>\t<1|0: real_conforms
    on the code points of the real view>\t<1|0: real_widths width view> *)
-let utf8_encode (b : Buffer.t) (c : int) =
-  if c < 0x80 then Buffer.add_char b (Char.chr c)
-  else if c < 0x800 then (Buffer.add_char b (Char.chr (0xC0 lor (c lsr 6))); Buffer.add_char b (Char.chr (0x80 lor (c land 0x3F))))
-  else if c < 0x10000 then (Buffer.add_char b (Char.chr (0xE0 lor (c lsr 12)));
-                            Buffer.add_char b (Char.chr (0x80 lor ((c lsr 6) land 0x3F)));
-                            Buffer.add_char b (Char.chr (0x80 lor (c land 0x3F))))
-  else (Buffer.add_char b (Char.chr (0xF0 lor (c lsr 18)));
-        Buffer.add_char b (Char.chr (0x80 lor ((c lsr 12) land 0x3F)));
-        Buffer.add_char b (Char.chr (0x80 lor ((c lsr 6) land 0x3F)));
-        Buffer.add_char b (Char.chr (0x80 lor (c land 0x3F))))
-
-let utf8_decode (s : string) : int list =
-  let n = String.length s in
-  let rec go i acc =
-    if i >= n then List.rev acc
-    else
-      let c = Char.code s.[i] in
-      let cont k = Char.code s.[i + k] land 0x3F in
-      if c < 0x80 then go (i + 1) (c :: acc)
-      else if c < 0xE0 && i + 1 < n then go (i + 2) ((((c land 0x1F) lsl 6) lor cont 1) :: acc)
-      else if c < 0xF0 && i + 2 < n then go (i + 3) ((((c land 0x0F) lsl 12) lor (cont 1 lsl 6) lor cont 2) :: acc)
-      else if i + 3 < n then go (i + 4) ((((c land 0x07) lsl 18) lor (cont 1 lsl 12) lor (cont 2 lsl 6) lor cont 3) :: acc)
-      else List.rev (0xFFFD :: acc)
-  in go 0 []
+(* UTF-8 is done by the extracted Gallina encoder / strict decoder (Driver.encode_utf8 / decode_utf8) *)
+let bytes_of_string (s : string) : z list = List.init (String.length s) (fun i -> z_of_int (Char.code s.[i]))
+let add_cps (b : Buffer.t) (cps : z list) = List.iter (fun z -> Buffer.add_char b (Char.chr (int_of_z z))) (encode_utf8 cps)
 
 let str_of_tok (t : string) : z list =
   (* s<hex>.<hex>... *)
@@ -189,10 +168,11 @@ let () =
                    s_bootargs = bootargs; s_handles = handles } in
         let b = Buffer.create 4096 in
         (match run_state prof st with
-         | Some cps -> List.iter (fun c -> utf8_encode b (int_of_z c)) cps
+         | Some cps -> add_cps b cps
          | None -> Buffer.add_string b "P;;");
-        let real_cps = List.map z_of_int (utf8_decode real_view) in
-        let ok = reparse_ok real_cps in
+        let decoded = decode_utf8 (bytes_of_string real_view) in
+        let real_cps = (match decoded with Some l -> l | None -> []) in
+        let ok = decoded <> None && reparse_ok real_cps in
         Buffer.add_char b '\t';
         Buffer.add_string b (if ok then "1" else "0");
         Buffer.add_char b '\t';
